@@ -88,3 +88,27 @@ contract(STORE, 'Store._mtime_coherent',
     raises={'StoreFileMutation': '(ube("exists", self._fp) and ufe("mtime", self._fp) != self._last_modified) or '
                                  '(not ube("exists", self._fp) and not ube("isnan", self._last_modified))'},
     ensures=['True'])
+
+
+# ---- C17: the load / evict loop of the Bus.  Counter discipline (lenient contract: array, dict and Series operations are over-approximated):
+# the number of loaded Frames tracked by `loaded_count` never exceeds max_persist once an iteration is complete; every flag set in `_loaded` is
+# counted, every eviction clears one flag and uncounts it (ghost counter g mirrors the flag writes).  NOT covered here: that the evicted label is
+# the least recently used one and that `_last_accessed` holds exactly the loaded labels (decided by the bounded history stand-in).
+RECORDS['LruBus'] = dict(_max_persist='opt[int]', _loaded_all='bool')
+contract(BUS, 'Bus._update_series_cache_iloc',
+    props=['C17'],
+    params=dict(self='LruBus'), order=['self', 'key'],
+    ghost_params=dict(L0='int'),          # number of Frames loaded on entry
+    lenient=True, lenient_protect=['loaded_count', 'max_persist_active', 'g'],
+    requires=['implies(not is_none(self._max_persist), self._max_persist >= 1 and 0 <= L0 and L0 <= self._max_persist)'],
+    raises={'RuntimeError': 'maybe', 'Exception': 'maybe', 'StopIteration': 'maybe'},
+    result='none',
+    calls={'self._loaded.sum': dict(params={}, order=[], result='int', ensures=['result == L0'])},      # ASSUMED: the flag array holds L0 True entries on entry
+    ghost_init=['g = L0'],
+    ghost_after={'self._loaded[idx] = True': ['g = g + 1'],
+                 'self._loaded[idx_remove] = False': ['g = g - 1']},
+    n_loops=2,
+    loops={0: dict(index='u', locals={}, invariant=[]),      # LRU refresh only (everything requested is loaded)
+           1: dict(index='t', locals=dict(loaded_count='int', g='int'), ghost_mods=['g'], invariant=[
+               'implies(max_persist_active, g == loaded_count and 0 <= loaded_count and loaded_count <= self._max_persist)'])},
+    ensures=['implies(not is_none(self._max_persist), True)'])
